@@ -584,10 +584,19 @@ func (rm *room) checkOrderings() {
 		dupIn := len(in) != len(ids(in)) || hasDup(in)
 		rm.r.Logf("ordering by %s of %s dup=%v", name, rm.shorts(idsInOrder(in)), dupIn)
 		verifrt.SetSalt(uint64(t.Intn(1 << 20)))
-		out := gmsl.ReverseTopologicalOrdering(in, order)
+		fn := "ReverseTopologicalOrdering"
+		var out []gmsl.PDU
+		if t.Chance(300) {
+			// the other exported entry point of the same ordering
+			fn = "HeaderedReverseTopologicalOrdering"
+			out = gmsl.HeaderedReverseTopologicalOrdering(in, order)
+			r.Probe("ordering_through_the_headered_entry_point")
+		} else {
+			out = gmsl.ReverseTopologicalOrdering(in, order)
+		}
 		verifrt.SetSalt(0)
 		r.Op()
-		rm.checkOrder("ReverseTopologicalOrdering/"+name, in, out, byAuth)
+		rm.checkOrder(fn+"/"+name, in, out, byAuth)
 	}
 	rm.checkLinearise()
 }
@@ -648,6 +657,10 @@ func (rm *room) checkOrder(who string, in, out []gmsl.PDU, byAuth bool) {
 	}
 	pos := map[string]int{}
 	for i, e := range out {
+		if e == nil {
+			r.Violate("C11", "ordering", "nil_entry", "%s returned a nil entry at position %d of %d (for %d inputs, %d of them distinct)", who, i, len(out), len(in), len(distinct))
+			return
+		}
 		if _, dup := pos[e.EventID()]; dup {
 			r.Violate("C11", "ordering", "duplicate", "%s returned %s twice", who, rm.short(e.EventID()))
 		}
